@@ -180,7 +180,7 @@ def replay(rec):
     _meas()
     c = rec["case"]
     kw = dict(c["kwargs"])
-    if "interval" in kw:
+    if "interval" in kw and not isinstance(kw["interval"], str):
         ts, te = c["edges"]
         T = te - ts
         kw["interval"] = "mid" if abs(kw["interval"][0] - (ts + T / 4)) < 1e-12 else "late"
